@@ -114,6 +114,15 @@ var checks = []Check{
 		Assumptions: []string{"GCounter with power-of-two increments stands for any CRDT value (attribution of updates); AWORSet/LWWSet values are covered at value level by C12", "no connection resets or partitions are injected here (the property speaks of connected peers)"},
 		MustProbe:   []string{"write_section_aborted", "section_held_open_after_write"}, MinRunsForProbes: 1000,
 	},
+	{
+		ID: "C11", Pkg: "checks/c11", Instr: coreInstr, Extra: map[string][]string{"distsys/resources": {"resources_access.go"}},
+		QuickRuns: 20000, ThoroughRuns: 1000000, QuickBudgetS: 60, ThoroughBudgetS: 1200, ShrinkS: 45,
+		Rule: "one run = 2-5 nodes each owning the real NewTwoPC resource and an archetype running 0-3 increment sections (read x; x := x+1), some failing 1-2 times after the write; transport drawn: in-process LocalReplicaHandle, a simulator ReplicaHandle delivering to the peer's exported Receive with drawn delay and (in half of those runs) loss, duplication and reply loss, or the real RPCReplicaHandle (net/rpc + gob) over the simulated network; at every scheduling point: per replica the version never decreases and any two replicas at the same version hold the same committed value; at the end: every programmed increment committed within 30 simulated minutes (progress), the committed increments read 0..K-1 each exactly once (single-copy register, no lost update), no replica still holds an accepted pre-commit, replicas at the final version hold K; non-trivial = at least 2 committed increments and a pre-emption; distinct = distinct interleaving digests",
+		Real:        realU,
+		Stub:        append([]string{"simulated-message transport: harness ReplicaHandle calling the peer's exported TwoPCReceiver.Receive"}, stubU...),
+		Assumptions: []string{"all replicas stay reachable (a majority is required for progress); loss/duplication only on the simulated-message transport and only until the writers are done", "replica state is read through an overlay-added accessor at scheduling points"},
+		MustProbe:   []string{"transport_in-process", "transport_simulated-message", "transport_rpc", "section_aborted", "three_or_more_replicas"}, MinRunsForProbes: 1000,
+	},
 }
 
 func findCheck(id string) *Check {
